@@ -395,7 +395,7 @@ func runEffect(c *core.Ctx) {
 	}
 	for k := range effectTabled {
 		if !seenTab[k] {
-			c.InternalErr(k, "tabled R-EFFECT exception no longer matches (stale table)")
+			c.Note("tabled R-EFFECT exception %q matches no construct any more (harmless; table can be pruned)", k)
 		}
 	}
 	c.Ob(fmt.Sprintf("%d observer entry points, %d reachable hand-written functions, %d store/map-update instructions inspected", len(entries), len(fns), nStores), token.NoPos, true, "no write to shared or package-level state")
